@@ -504,7 +504,12 @@ def decision_walk(fn, choose, watch_locals=(), start=0, limit=4096, track=None):
         if pl is None:
             return None
         if not pl["p"]:
-            return env.get(pl["l"])
+            v_ = env.get(pl["l"])
+            return None if isinstance(v_, tuple) else v_
+        if len(pl["p"]) == 1 and isinstance(pl["p"][0], dict) and str(pl["p"][0].get("f", "")).isdigit():
+            tv_ = env.get(pl["l"])
+            if isinstance(tv_, tuple) and tv_ and tv_[0] == "tuple" and int(pl["p"][0]["f"]) < len(tv_[1]):
+                return tv_[1][int(pl["p"][0]["f"])]     # a component of a pair of known booleans: `match (no_color, force) { (true, _) => .. }`
         return track["place_value"](pl) if track and track.get("place_value") else None
     while stack:
         b, last, trace, calls, seen, env, pv = stack.pop()
@@ -537,6 +542,9 @@ def decision_walk(fn, choose, watch_locals=(), start=0, limit=4096, track=None):
                 elif rv["k"] == "un" and rv.get("op") == "Not":
                     x = opval(env, rv["a"])
                     v = None if x is None else (not x)
+                elif rv["k"] == "agg" and rv.get("agg") == "tuple":
+                    parts_ = tuple(opval(env, f_) for f_ in rv.get("fields", []))
+                    v = ("tuple", parts_) if any(x is not None for x in parts_) else None
                 elif rv["k"] == "bin" and track.get("bin_value"):
                     v = track["bin_value"](rv)      # a comparison the caller can decide for this case
                 if v is None or s["lhs"]["l"] in escaped:
@@ -899,10 +907,26 @@ def const_skipping_paths(fn, start, must_blocks, stop_blocks, cut_edges=(), limi
                         src = st["rv"]["place"]["l"]
             if src is not None and src not in escaped and not si.is_bool:
                 out = []
+                # the value tested may be a copy made for the test (`split.map_or(..)` on a Copy option used again later):
+                # what is learnt about the copy is learnt about the original, as long as neither is assigned more than once
+                roots = [src]
+                cur_ = src
+                for _ in range(4):
+                    ds_ = [d for d in fn.defs(cur_) if not d[0]]
+                    if len(ds_) != 1 or ds_[0][3] != "rv" or ds_[0][4]["k"] != "use":
+                        break
+                    pl_ = ds_[0][4]["a"].get("copy") or ds_[0][4]["a"].get("move")
+                    if pl_ is None or pl_["p"] or pl_["l"] in escaped or (1 <= pl_["l"] <= fn.nargs):
+                        break
+                    if len([d for d in fn.defs(pl_["l"]) if not d[0]]) != 1:
+                        break
+                    cur_ = pl_["l"]
+                    roots.append(cur_)
                 for lab, tt in si.labelled_edges():
                     e2 = dict(env)
                     if isinstance(lab, str):
-                        e2[src] = ("variant", lab)
+                        for r_ in roots:
+                            e2[r_] = ("variant", lab)
                     out.append((tt, e2))
                 return out
         return [(x, env) for x in fn.succ[b]]
